@@ -39,7 +39,7 @@ def paren(t):
 class Kernel(object):
     def __init__(self, name, fn_ast, params, ret, locals_, attrs=None, calls=None, skip=(), consts=None,
                  drop_params=("self", "cls"), self_attrs=None, truthy=None, lean_name=None, methods=None,
-                 attr_targets=None, ret_extra=(), init_locals=None):
+                 attr_targets=None, ret_extra=(), init_locals=None, stmt_updates=None):
         self.name = lean_name or name
         self.fn = fn_ast
         self.params = params          # ordered list of (lean_name, type); python param names mapped via rename
@@ -57,6 +57,7 @@ class Kernel(object):
         self.attr_targets = attr_targets or {}   # 'self.done' -> local name (assignment to an attribute = state update)
         self.ret_extra = list(ret_extra)         # locals appended to every returned tuple (the updated state)
         self.init_locals = init_locals or {}     # local name -> (lean initial value, type) bound before the body
+        self.stmt_updates = stmt_updates or {}   # source of a call statement -> (local name, lean template of the new value, {0} = current)
 
     # ---------------------------------------------------------------- expressions
     def expr(self, e, env):
@@ -131,6 +132,10 @@ class Kernel(object):
                     return ("(%s).isNone" if isinstance(op, ast.Is) else "(%s).isSome") % l, "Bool"
                 raise Untranslatable("is on non-None")
             r, _rt = self.expr(r_ast, env)
+            sym0 = {ast.Lt: "<", ast.LtE: "≤", ast.Gt: ">", ast.GtE: "≥"}.get(type(op))
+            if sym0 is not None and is_opt(_rt) and not is_opt(lt):
+                # comparison against an Optional that the Python code has guarded with `is not None`
+                return "((%s).any (fun v__ => decide (%s %s v__)))" % (r, l, sym0), "Bool"
             sym = {ast.Lt: "<", ast.LtE: "≤", ast.Gt: ">", ast.GtE: "≥", ast.Eq: "==", ast.NotEq: "!="}.get(type(op))
             if sym is None:
                 raise Untranslatable("comparison %s" % type(op).__name__)
@@ -212,6 +217,10 @@ class Kernel(object):
                         for n in ([tg] if isinstance(tg, ast.Name) else getattr(tg, "elts", [])):
                             if isinstance(n, ast.Name) and n.id not in out:
                                 out.append(n.id)
+                elif isinstance(st, ast.Expr) and ast.unparse(st.value) in self.stmt_updates:
+                    nm = self.stmt_updates[ast.unparse(st.value)][0]
+                    if nm not in out:
+                        out.append(nm)
                 elif isinstance(st, ast.Expr) and isinstance(st.value, ast.Call) and isinstance(st.value.func, ast.Attribute) \
                         and st.value.func.attr == "append" and isinstance(st.value.func.value, ast.Name):
                     if st.value.func.value.id not in out:
@@ -229,7 +238,7 @@ class Kernel(object):
                 elif isinstance(st, ast.If):
                     visit(st.body)
                     visit(st.orelse)
-                elif isinstance(st, (ast.For, ast.With)):
+                elif isinstance(st, (ast.For, ast.With, ast.While)):
                     visit(st.body)
         visit(stmts)
         return out
@@ -248,6 +257,12 @@ class Kernel(object):
             return k(env, ind)
         st, rest = stmts[0], stmts[1:]
         pad = "  " * ind
+        if isinstance(st, ast.Expr) and ast.unparse(st.value) in self.stmt_updates:
+            nm, tmpl = self.stmt_updates[ast.unparse(st.value)]
+            cur, t = env[nm]
+            env2 = dict(env)
+            env2[nm] = (nm, t)
+            return "%slet %s : %s := %s\n%s" % (pad, nm, t, tmpl.format(cur), self.block(rest, env2, k, ind, early))
         if self.is_skipped(st):
             return self.block(rest, env, k, ind, early)
         if isinstance(st, ast.Assign) and len(st.targets) == 1 and isinstance(st.targets[0], ast.Subscript) \
@@ -326,7 +341,88 @@ class Kernel(object):
             return "%s%s" % (pad, early(val, vt))
         if isinstance(st, ast.For):
             return self.loop(st, rest, env, k, ind, early)
+        if isinstance(st, ast.While):
+            return self.while_pop(st, rest, env, k, ind, early)
         raise Untranslatable("statement %s" % type(st).__name__)
+
+    def while_pop(self, st, rest, env, k, ind, early):
+        """`while Q:` … `x = Q.popleft()` … with optional `break`s before the pop: a queue-draining loop.
+        Becomes a named structurally recursive helper over Q; `break` returns with the queue as it is."""
+        if st.orelse:
+            raise Untranslatable("while/else")
+        qsrc = ast.unparse(st.test)
+        if qsrc not in self.attr_targets:
+            raise Untranslatable("while over %s (only `while <queue>:` is supported)" % qsrc)
+        qn = self.attr_targets[qsrc]
+        qcur, qt = env[qn]
+        if not is_list(qt):
+            raise Untranslatable("while over non-list")
+        # locate the pop
+        pop_i = None
+        for i, b in enumerate(st.body):
+            if isinstance(b, ast.Assign) and len(b.targets) == 1 and isinstance(b.targets[0], ast.Name) \
+                    and isinstance(b.value, ast.Call) and ast.unparse(b.value) == "%s.popleft()" % qsrc:
+                pop_i = i
+                break
+        if pop_i is None:
+            raise Untranslatable("while body without `x = %s.popleft()`" % qsrc)
+        var = st.body[pop_i].targets[0].id
+        pre, post = list(st.body[:pop_i]), list(st.body[pop_i + 1:])
+        for b in ast.walk(ast.Module(body=post, type_ignores=[])):
+            if isinstance(b, (ast.Break, ast.Return)):
+                raise Untranslatable("break/return after the pop")
+        carried = [n for n in self.assigned(st.body) if n in env and n != qn]
+        ctypes = [env[n][1] for n in carried]
+        self.nloops += 1
+        hname = "%s_loop%d" % (self.name, self.nloops)
+        frees = self._frees(st.body, env, carried, {var, qn})
+        res_t = " × ".join([paren(qt)] + [paren(t) for t in ctypes])
+        cvals = ", ".join(carried)
+
+        def brk(env_b):
+            return "(%s)" % ", ".join(["%s :: rest" % var] + [env_b[n][0] for n in carried])
+
+        def pre_block(stmts, env_b, ind_b):
+            if not stmts:
+                return post_block(env_b, ind_b)
+            s0, r0 = stmts[0], stmts[1:]
+            padb = "  " * ind_b
+            if self.is_skipped(s0):
+                return pre_block(r0, env_b, ind_b)
+            if isinstance(s0, ast.Break):
+                return padb + brk(env_b)
+            if isinstance(s0, ast.If) and not s0.orelse:
+                c = self.truth(s0.test, env_b)
+                return "%sif %s then\n%s\n%selse\n%s" % (padb, c, pre_block(list(s0.body) + r0, env_b, ind_b + 1), padb,
+                                                          pre_block(r0, env_b, ind_b + 1))
+            raise Untranslatable("statement before the pop: %s" % type(s0).__name__)
+
+        def post_block(env_b, ind_b):
+            def k_body(env_c, ind_c):
+                args = " ".join(env_c[n][0] if env_c[n][0] == n else "(%s)" % env_c[n][0] for n in carried)
+                return "%s%s %s rest %s" % ("  " * ind_c, hname, " ".join(frees), args)
+            return self.block(post, env_b, k_body, ind_b, None)
+
+        env_b = dict(env)
+        env_b[var] = (var, elem(qt))
+        env_b[qn] = ("(%s :: rest)" % var, qt)
+        for n in carried:
+            env_b[n] = (n, env[n][1])
+        body = pre_block(pre, env_b, 3)
+        sig_free = " ".join("(%s : %s)" % (n, env[n][1]) for n in frees)
+        arrow = " → ".join([paren(qt)] + [paren(t) for t in ctypes] + [res_t])
+        pat = ", ".join(["[]"] + carried)
+        pat2 = ", ".join(["%s :: rest" % var] + carried)
+        self.helpers.append("def %s %s : %s\n  | %s => (%s)\n  | %s =>\n%s\n"
+                            % (hname, sig_free, arrow, pat, ", ".join(["[]"] + carried), pat2, body))
+        pad = "  " * ind
+        call = "%s %s %s %s" % (hname, " ".join(frees), paren_expr(qcur),
+                                " ".join(env[n][0] if env[n][0] == n else "(%s)" % env[n][0] for n in carried))
+        env2 = dict(env)
+        env2[qn] = (qn, qt)
+        for n in carried:
+            env2[n] = (n, env[n][1])
+        return "%slet (%s) := %s\n%s" % (pad, ", ".join([qn] + carried), call, self.block(rest, env2, k, ind, early))
 
     def loop(self, st, rest, env, k, ind, early):
         if not isinstance(st.target, ast.Name) or st.orelse:
@@ -341,9 +437,7 @@ class Kernel(object):
         self.nloops += 1
         hname = "%s_loop%d" % (self.name, self.nloops)
         # free read-only variables used in the body
-        used = sorted({n.id for n in ast.walk(ast.Module(body=st.body, type_ignores=[])) if isinstance(n, ast.Name)}
-                      - set(carried) - {var})
-        frees = [n for n in used if n in env and env[n][0] == n]
+        frees = self._frees(st.body, env, carried, {var})
         ctuple_t = " × ".join(paren(t) for t in ctypes) if ctypes else "Unit"
         res_t = ("Option %s × (%s)" % (paren(self.ret_inner()), ctuple_t)) if hasret else ctuple_t
         cvals = "(" + ", ".join(carried) + ")" if carried else "()"
@@ -379,6 +473,45 @@ class Kernel(object):
                     % (pad, call, pad, ("some r" if is_opt(self.ret) else "r"), pad, cvals, tail))
         return "%slet %s := %s\n%s" % (pad, cvals, call, tail)
 
+    def _frees(self, body, env, carried, exclude):
+        """Read-only variables of the enclosing scope that the translated loop body mentions: decided on the
+        translated text (a side-table template may mention a parameter the Python text does not)."""
+        cands = [n for n in sorted(env) if env[n][0] == n and n not in carried and n not in exclude]
+        saved = (list(self.helpers), self.nloops)
+        env_b = dict(env)
+        for x in exclude:
+            env_b[x] = (x, "?")
+        try:
+            txt = self._probe(body, env, carried, exclude)
+        finally:
+            self.helpers, self.nloops = saved
+        import re
+        return [n for n in cands if re.search(r"(?<![\w.])%s(?![\w])" % re.escape(n), txt)]
+
+    def _probe(self, body, env, carried, exclude):
+        """translate every expression of the body in a permissive environment, concatenating the texts"""
+        out = []
+        env_b = dict(env)
+        for x in exclude:
+            env_b.setdefault(x, (x, "?"))
+
+        def visit(stmts):
+            for st in stmts:
+                for node in ast.iter_child_nodes(st):
+                    if isinstance(node, ast.expr):
+                        try:
+                            out.append(self.expr(node, _Permissive(env_b))[0])
+                        except Untranslatable:
+                            out.append(ast.unparse(node))
+                if isinstance(st, ast.Expr) and ast.unparse(st.value) in self.stmt_updates:
+                    out.append(self.stmt_updates[ast.unparse(st.value)][1])
+                for fld in ("body", "orelse"):
+                    sub = getattr(st, fld, None)
+                    if isinstance(sub, list):
+                        visit(sub)
+        visit(body)
+        return " ".join(out)
+
     def ret_inner(self):
         return elem(self.ret) if is_opt(self.ret) else self.ret
 
@@ -398,6 +531,15 @@ class Kernel(object):
         sig = " ".join("(%s : %s)" % (n, t) for n, t in self.params)
         main = "def %s %s : %s :=\n%s%s\n" % (self.name, sig, self.ret, pre, body)
         return "\n".join(self.helpers) + "\n" + main
+
+
+class _Permissive(dict):
+    """environment for the free-variable probe: unknown names translate to themselves"""
+    def __contains__(self, k):
+        return True
+
+    def __missing__(self, k):
+        return (k, "?")
 
 
 def _load(target):
